@@ -1111,6 +1111,7 @@ def _replay_roots_files(cand, tried) -> Dict[str, Any]:
 
 
 SPEC = Spec(
+    lean=["Bracket.lean"],
     prop=PROP,
     level="other",
     functions=[(TCS, "_less_than"), (TCS, "_cmp_events_with_zero_duration"), (TCS, "sort_events"),
@@ -1121,11 +1122,15 @@ SPEC = Spec(
     replay=replay,
     trusted=[
         "sorted()/list.sort with cmp_to_key returns a permutation without inversions when `<` derived from the comparator is a strict (weak) order on the elements",
-        "bracket lemma L6 (order obligations + push/pop transition => innermost-container tree) is not machine-proved; it is validated by the exhaustive bounded stage on the real builders",
+        "bracket lemma L6 (order obligations + push/pop transition => every positive-duration event gets the event directly enclosing it) is machine-checked in lean/Bracket.lean from the hypotheses "
+        "irreflexive + transitive processing order, a1 = R1, a2 = R2a-c (+ file order for identical spans), a3 = R3, properly nested family, every event contributes both endpoints; that the sorted array "
+        "satisfies them is the conjunction of the comparator obligations with the sort contract above (transitivity fails in the D4 class, which the lemma therefore does not cover); "
+        "the placement of zero-duration events is covered by R5 and the exhaustive bounded stage only",
         "construction of the endpoint array (melt/replace/astype/to_numpy; itertuples in the old builder) is covered only by the bounded stage",
     ],
     assumptions=["instants and durations are mathematical reals in the obligations; the floating-point rounding of ts + dur is not modelled"],
     explanation="Order obligations of both comparators, the loop bodies and _add_edge of both builders are generated from the AST of /repo and "
-                "discharged by z3; the composition into the tree statement rests on the bracket lemma, validated exhaustively on the real builders "
+                "discharged by z3; the composition into the tree statement is the bracket lemma (lean/Bracket.lean, machine-checked for positive-duration events), whose hypotheses are "
+                "those obligations plus the sort contract; zero-duration placement and the D4 class are validated exhaustively on the real builders "
                 "for all laminar families within the stated scope (bounded, not counted as proved).",
 )
